@@ -46,6 +46,10 @@ Props == { P("{name: \"x\"}", "{\"name\":\"x\"}", FALSE),
            P("{name: \"f\", hint: \"closes (see {expr}) first\"}", "{\"name\":\"f\",\"hint\":\"closes (see {expr}) first\"}", FALSE),
            P("{scopes: [\"read:(any {t}) d\", \"w\"]}", "{\"scopes\":[\"read:(any {t}) d\",\"w\"]}", FALSE),
            P("{name: }", "", TRUE),
+           \* a complete object FOLLOWED by more text before the closing parenthesis: malformed as a whole, whatever its first part says
+           P("{name: \"x\"} }", "", TRUE),
+           P("{scopes: [\"a\"]}, {scopes: [\"b\"]}", "", TRUE),
+           P("{name: \"x\"} validate: \"gt=1\" }", "", TRUE),
            P("{name: \"x\" \"y\"}", "", TRUE) }
 
 \* descriptions; hazard = contains "})"
